@@ -616,7 +616,8 @@ func waitClose(w *event.KafkaWriter, done chan struct{}) bool {
 func runRace(in raceIn) gen.Case {
 	r := gen.NewRand(in.Seed)
 	hangs, lost, trials := 0, 0, 0
-	for ; trials < in.Trials && hangs == 0; trials++ {
+	aborted := false
+	for ; trials < in.Trials && hangs == 0 && !aborted; trials++ {
 		done := make(chan struct{})
 		switch in.Mode {
 		case 1: // Close right after construction
@@ -633,8 +634,28 @@ func runRace(in raceIn) gen.Case {
 				arrived <- len(ms)
 				<-gate
 			})
-			w.WriteEvent(&pb.Ev_MetaEvent_CoreStart{FrameworkId: "0:0"})
-			got := <-arrived
+			pubDone := make(chan struct{})
+			go func() { w.WriteEvent(&pb.Ev_MetaEvent_CoreStart{FrameworkId: "0:0"}); close(pubDone) }()
+			got, ok := 0, true
+			select {
+			case got = <-arrived:
+			case <-time.After(settleTimeout):
+				ok = false
+			}
+			if ok {
+				select {
+				case <-pubDone:
+				case <-time.After(settleTimeout):
+					ok = false
+				}
+			}
+			if !ok {
+				// the message never reached the write function, or WriteEvent waits for the broker:
+				// the forced schedules report that; this search cannot run
+				close(gate)
+				aborted = true
+				break
+			}
 			d1, d2 := r.Intn(3000), r.Intn(3000)
 			go func() { spin(d1); w.Close(); close(done) }()
 			spin(d2)
@@ -750,7 +771,7 @@ func genSched(r *gen.Rand, large bool) caseIn {
 	g := &genState{r: r, np: r.Range(1, 8), tags: map[int]int{}}
 	nops := r.Range(2, 14)
 	if large {
-		nops = r.Range(2, 6)
+		nops = r.Range(3, 9)
 	}
 	var ops []opIn
 	closeAt := r.Intn(nops + 1) // Close somewhere inside (or right at the start / at the end)
